@@ -259,6 +259,18 @@ inline std::vector<Program> fe_programs() {
     v.push_back(p);
   }
   {
+    // thread 0 starts with a leaf, the last thread with the head of a chain:
+    // every later round holds a single item that is private to a thread other
+    // than thread 0 (the one that does the per-round bookkeeping)
+    Program p;
+    p.name  = "side-chain";
+    p.ninit = 2;
+    p.items = {item({}, {}, {}, false, 0),  item({}, {}, {2}, false, 0),
+               item({}, {}, {3}, false, 1), item({}, {}, {4}, false, 2),
+               item({}, {}, {}, false, 3)};
+    v.push_back(p);
+  }
+  {
     Program p;
     p.name  = "tree";
     p.ninit = 2;
